@@ -297,6 +297,9 @@ func c04Recursion(ctx *Ctx, r *Report, g *callGraph) map[*types.Func]bool {
 					guard = c04RefCaseOnly(info, n, parents, call, derivedArg, lookupDerived, len(c) == 1)
 				}
 				if guard == "" {
+					guard = c04FiniteValueDescent(info, n.decl, parents, call)
+				}
+				if guard == "" {
 					if why, ok := c04RecursionExemptions[cons]; ok {
 						guard = "reviewed: " + why
 					}
@@ -1288,6 +1291,19 @@ func c04VisitedKeyConsistency(ctx *Ctx, r *Report) {
 				return []string{"concat"}
 			case *ast.SelectorExpr:
 				return []string{"." + x.Sel.Name}
+			case *ast.CompositeLit:
+				// a key built field by field: one that leaves fields of its type out is not the key the whole value
+				// gives (`RefType{ReferredType: name}` against `object.SelfRef`)
+				if st, ok := info.TypeOf(x).Underlying().(*types.Struct); ok && len(x.Elts) < st.NumFields() {
+					var set []string
+					for _, el := range x.Elts {
+						if kv, ok := el.(*ast.KeyValueExpr); ok {
+							set = append(set, exprString(kv.Key))
+						}
+					}
+					sort.Strings(set)
+					return []string{"partial{" + strings.Join(set, ",") + "}"}
+				}
 			}
 			return []string{""}
 		}
@@ -2656,4 +2672,94 @@ func c04FourthHunt(ctx *Ctx, r *Report) {
 	r.Floor("methods guarding a recursion with an in-progress set on their receiver (front-ends, passes)", 2)
 	r.Count("hunted clauses of termination (4th hunt)", n)
 	r.Floor("hunted clauses of termination (4th hunt)", 3)
+}
+
+// c04FiniteValueDescent: the recursive call sits in a loop over the components of a decoded value — `items` from
+// `value.([]any)` / `value.(map[string]any)`, `value` a parameter of interface type — and hands one component on: the
+// recursion is structural on a literal of the schema (a default, a constant), which is finite whatever the types refer
+// to.
+func c04FiniteValueDescent(info *types.Info, decl *ast.FuncDecl, parents map[ast.Node]ast.Node, call *ast.CallExpr) string {
+	params := map[types.Object]bool{}
+	if decl.Type.Params != nil {
+		for _, f := range decl.Type.Params.List {
+			for _, name := range f.Names {
+				if o := info.Defs[name]; o != nil {
+					if _, isIface := o.Type().Underlying().(*types.Interface); isIface {
+						params[o] = true
+					}
+				}
+			}
+		}
+	}
+	// variables holding a component list of such a parameter
+	components := map[types.Object]string{}
+	// position of each parameter: the component has to travel in the position of the value it was taken from
+	position := map[types.Object]int{}
+	if decl.Type.Params != nil {
+		i := 0
+		for _, f := range decl.Type.Params.List {
+			for _, name := range f.Names {
+				position[info.Defs[name]] = i
+				i++
+			}
+		}
+	}
+	origin := map[types.Object]types.Object{}
+	ast.Inspect(decl.Body, func(m ast.Node) bool {
+		as, ok := m.(*ast.AssignStmt)
+		if !ok || len(as.Rhs) != 1 || len(as.Lhs) == 0 {
+			return true
+		}
+		ta, ok := ast.Unparen(as.Rhs[0]).(*ast.TypeAssertExpr)
+		if !ok || ta.Type == nil {
+			return true
+		}
+		src, ok := ast.Unparen(ta.X).(*ast.Ident)
+		if !ok || !params[info.Uses[src]] {
+			return true
+		}
+		if id, ok := as.Lhs[0].(*ast.Ident); ok {
+			if o := objOf(info, id); o != nil {
+				components[o] = exprString(as.Rhs[0])
+				origin[o] = info.Uses[src]
+			}
+		}
+		return true
+	})
+	for q := parents[ast.Node(call)]; q != nil; q = parents[q] {
+		rs, ok := q.(*ast.RangeStmt)
+		if !ok {
+			continue
+		}
+		src, ok := ast.Unparen(rs.X).(*ast.Ident)
+		if !ok {
+			continue
+		}
+		from, ok := components[info.Uses[src]]
+		if !ok {
+			continue
+		}
+		for _, v := range []ast.Expr{rs.Value, rs.Key} {
+			vid, ok := v.(*ast.Ident)
+			if !ok {
+				continue
+			}
+			for i, a := range call.Args {
+				if i != position[origin[info.Uses[src]]] {
+					continue
+				}
+				uses := false
+				ast.Inspect(a, func(z ast.Node) bool {
+					if id, ok := z.(*ast.Ident); ok && info.Uses[id] == info.Defs[vid] && info.Defs[vid] != nil {
+						uses = true
+					}
+					return true
+				})
+				if uses {
+					return fmt.Sprintf("the recursion descends into the components of a decoded value (%s of %s, from %s): a literal of the schema, finite whatever its type refers to", vid.Name, src.Name, from)
+				}
+			}
+		}
+	}
+	return ""
 }
